@@ -162,7 +162,7 @@ CHECKS = {
     "C16": {
         "legs": lambda tier: [{"pkg": "props", "run": "^TestC16$", "shards": 14 if tier == "quick" else 16},
                               # key-quality verdicts from eight goroutines at once, race-detector build
-                              {"pkg": "racecheck", "run": "^TestConcurrentKeys$", "shards": 2 if tier == "quick" else 8, "race": True, "replay_pkg": False}],
+                              {"pkg": "racecheck", "run": "^TestConcurrentKeys$", "shards": 6 if tier == "quick" else 16, "race": True, "replay_pkg": False}],
         "needs_cli": True,
         "rule": "enumerated: every divisor 2..769 times a 1031-bit prime, bit lengths {1,2,8,512,1023..1025,2040,2047..2049,2056,3071..3073,4096} x exponents {1,2,3,4,65535..65538,2^31-1,2^62+1} "
                 "(a quarter of the base/threshold/exponent grid per seed), genuinely self-signed roots built from 10 committed keys of 1023..4096 bits under the base's validity and eight periods on every side of the 2011 / 2014 dates; rapid: moduli near thresholds, "
@@ -232,7 +232,8 @@ CHECKS = {
                               {"pkg": "racecheck", "run": "^TestColdUtil$", "shards": 2 if tier == "quick" else 8, "race": True},
                               {"pkg": "racecheck", "run": "^TestConcurrentJSON$", "shards": 2 if tier == "quick" else 8, "race": True},
                               {"pkg": "racecheck", "run": "^TestConcurrentKeys$", "shards": 1 if tier == "quick" else 4, "race": True},
-                              {"pkg": "racecheck", "run": "^TestFreshRegistryReads$", "shards": 4 if tier == "quick" else 8, "race": True}],
+                              {"pkg": "racecheck", "run": "^TestFreshRegistryReads$", "shards": 4 if tier == "quick" else 8, "race": True},
+                              {"pkg": "racecheck", "run": "^TestConcurrentScope$", "shards": 2 if tier == "quick" else 8, "race": True}],
         "maxpar": 8,
         "rule": "hammer phase after every program: 8 goroutines lint the program's focus objects (corpus certificates on which its four focus lints - walked round-robin over the registry - apply) and never-seen-before variants of them (fresh A-labels, ACE prefix in lower / upper / mixed case) 150 (quick) / 400 (thorough) times each through a registry holding only the focus lints; the sequential reference is computed afterwards; 120 s without finishing = deadlock. one program in four concentrates on revocation lists, one in eight on OCSP responses; workers also Filter themselves a registry of their own (options that select everything or not) and reconfigure it while others lint configuration-sensitive objects through the shared one. rapid programs: 2-16 goroutines x 5-40 operations from {Lint*Ex on an own fresh parse against a shared registry, Filter, Names, Sources, ByName/BySource/Lints per kind, "
                 "WriteJSON, GetConfiguration, DefaultConfiguration}; shared registries = global + 1-3 generated filtered ones; 6-24 objects per program (corpus walked round-robin so every "
